@@ -153,6 +153,7 @@ fn poisson(k: i64) {
     let l = par(0, 1.0e-3, 1.0e3);
     let d = Poisson::new(l);
     // the factorial values of the uninterpreted gamma at the integers that matter
+    #[cfg(kani)]
     vassume!(g(1.0) == 1.0 && g(2.0) == 1.0 && g(3.0) == 2.0 && g(4.0) == 6.0 && g(5.0) == 24.0);
     let want = if k < 0 {
         0.0
